@@ -650,6 +650,12 @@ func (c *specCtx) binary(x *ast.BinaryExpr) specVal {
 			}
 			eq = fmt.Sprintf("(= (if_type %s) 0)", o.term)
 		} else {
+			// a recorded bool (call argument / result) compared with 0 or 1: keep the term well sorted for every solver
+			if sa == "Bool" && sb == "Int" {
+				a.term = fmt.Sprintf("(ite %s 1 0)", a.term)
+			} else if sa == "Int" && sb == "Bool" {
+				b.term = fmt.Sprintf("(ite %s 1 0)", b.term)
+			}
 			eq = fmt.Sprintf("(= %s %s)", a.term, b.term)
 		}
 		if x.Op == token.NEQ {
